@@ -291,21 +291,42 @@ where
                     }
                 }
                 "recv_body" => {
-                    // recv_data until it reports the end of the body or an error
+                    // recv_data until it reports the end of the body or an error; with "merge" the pieces are
+                    // concatenated and logged as one data result (what the property compares is the byte sequence)
+                    let merge = op["merge"] == true;
+                    let mut acc: Vec<u8> = vec![];
+                    let mut pieces = 0u64;
                     let mut stop = false;
                     loop {
                         let r = on_recv!(x, Some(tc.call("recv_data", &rx, x.recv_data()).await), None);
+                        let flush = |tc: &TaskCtx, acc: &mut Vec<u8>, recv_off: &mut u64, pieces: u64| {
+                            if merge && pieces > 0 {
+                                let mut v = data_res(recv_off, acc);
+                                v["pieces"] = json!(pieces);
+                                tc.ret("recv_data", v);
+                                acc.clear();
+                            }
+                        };
                         match r {
                             None => {
                                 unsupported(&tc, "recv_data");
                                 break;
                             }
-                            Some(Ok(Some(d))) => tc.ret("recv_data", data_res(&mut recv_off, &d)),
+                            Some(Ok(Some(d))) => {
+                                pieces += 1;
+                                if merge {
+                                    acc.extend_from_slice(&d);
+                                } else {
+                                    tc.ret("recv_data", data_res(&mut recv_off, &d));
+                                }
+                            }
                             Some(Ok(None)) => {
+                                flush(&tc, &mut acc, &mut recv_off, pieces);
                                 tc.ret("recv_data", json!({"k": "none"}));
                                 break;
                             }
                             Some(Err(e)) => {
+                                flush(&tc, &mut acc, &mut recv_off, pieces);
                                 tc.ret("recv_data", proj::stream_err(&e));
                                 stop = true;
                                 break;
@@ -791,6 +812,10 @@ struct World {
     sender_slot: Rc<RefCell<Option<Sender>>>,
     root: TaskCtx,
     pair: bool,
+    /// pair mode: carry at most this many bytes per stream per round (0 = everything); random sizes up to it when pump_random
+    pump_chunk: usize,
+    pump_random: bool,
+    log_xfer: bool,
 }
 
 impl World {
@@ -828,7 +853,9 @@ impl World {
                     }
                 }
                 if !bytes.is_empty() {
-                    self.log.push(json!({"ev": "xfer", "from": from.0, "sid": sid, "len": bytes.len()}));
+                    if self.log_xfer {
+                        self.log.push(json!({"ev": "xfer", "from": from.0, "sid": sid, "len": bytes.len()}));
+                    }
                     to.1.deliver(sid, &bytes);
                 }
                 if fin {
@@ -856,9 +883,13 @@ impl World {
     }
 
     fn settle(&mut self) {
-        for _ in 0..10_000 {
+        for _ in 0..1_000_000 {
             self.exec.run();
-            if !self.pump(None, None, None) {
+            let max = match self.pump_chunk {
+                0 => None,
+                n => Some(if self.pump_random { 1 + (fastrand::usize(..) % n) } else { n }),
+            };
+            if !self.pump(None, None, max) {
                 break;
             }
         }
@@ -901,6 +932,9 @@ pub fn run_one(scn: &Value) -> Vec<Value> {
         sender_slot: Rc::new(RefCell::new(None)),
         root,
         pair: role == "pair",
+        pump_chunk: cfg["pump_chunk"].as_u64().unwrap_or(0) as usize,
+        pump_random: cfg["pump_random"].as_bool().unwrap_or(false),
+        log_xfer: cfg["log_xfer"].as_bool().unwrap_or(false),
     };
     // everything the generator says about the scenario except the step list travels with the reset event
     let mut meta = serde_json::Map::new();
@@ -924,6 +958,7 @@ pub fn run_one(scn: &Value) -> Vec<Value> {
                 g.bidi_credit = b;
             }
             g.keep_tx = role == "pair";
+            g.log_wrote = cfg["log_wrote"].as_bool().unwrap_or(true);
             if let Some(a) = c["dgram_avail"].as_bool() {
                 g.dgram_avail = a;
             }
